@@ -98,7 +98,14 @@ func verifC15HandleConn() {
 		stream = first
 	}
 	remote := &net.TCPAddr{IP: net.IPv4(20, 0, 0, 7).To4(), Port: 7007}
-	conn := &verifTCPConn{localTCP: &net.TCPAddr{IP: localIP, Port: 4000}}
+	connLocalIP := localIP
+	if verifChoice(2) == 1 {
+		// a dual-stack listener reports IPv4 peers with 16-byte addresses: still IPv4
+		remote = &net.TCPAddr{IP: net.IPv4(20, 0, 0, 7), Port: 7007}
+		connLocalIP = net.IPv4(10, 0, 0, 1)
+		verifReach("ipv4-in-16-byte-form")
+	}
+	conn := &verifTCPConn{localTCP: &net.TCPAddr{IP: connLocalIP, Port: 4000}}
 	conn.data, conn.failAt, conn.remote, conn.partial = stream, -1, remote, 2
 	if kind < 5 {
 		conn.hold = make(chan struct{}) // the peer stays connected after its packets
@@ -189,7 +196,7 @@ func verifC15HandleConn() {
 // agent claims the ufrag in the meantime.
 func verifC15TwoPeers() {
 	lst := &verifListener{ch: make(chan net.Conn, 1), addr: &net.TCPAddr{IP: net.IPv4(10, 0, 0, 1).To4(), Port: 4000}}
-	m := NewTCPMuxDefault(TCPMuxParams{Listener: lst, Logger: verifNopLogger{}, ReadBufferSize: 8, AliveDurationForConnFromStun: 400 * time.Millisecond})
+	m := NewTCPMuxDefault(TCPMuxParams{Listener: lst, Logger: verifNopLogger{}, ReadBufferSize: 1, AliveDurationForConnFromStun: 400 * time.Millisecond})
 	localIP := net.IPv4(10, 0, 0, 1).To4()
 	mk := func(i int) *verifTCPConn {
 		msg, err := stun.Build(stun.BindingRequest, stun.NewTransactionIDSetter(verifTxID()), stun.NewUsername("zz:peer"), PriorityAttr(verifU32()))
@@ -211,6 +218,19 @@ func verifC15TwoPeers() {
 	verifAssert(pc != nil && len(pc.conns) == 2 && c1.closed == 0 && c2.closed == 0, "both-connections-attached-to-it")
 	if pc == nil {
 		return
+	}
+	// the receive queue holds one packet: the second peer's first message has
+	// to wait for room, it must not be dropped
+	buf := make([]byte, 600)
+	for k, c := range []*verifTCPConn{c1, c2} {
+		verifAssert(len(pc.recvChan) == 1, "a-first-message-is-waiting-in-the-queue")
+		if len(pc.recvChan) == 0 {
+			return // reading would block for ever
+		}
+		n, addr, err := pc.readFromContext(context.Background(), buf)
+		verifRunGoroutines()
+		verifAssert(err == nil && verifBytesEq(buf[:n], c.data[2:]) && addr.String() == c.remote.String(), "every-peer's-first-message-is-delivered-with-its-address(queue-full-or-not)")
+		_ = k
 	}
 	claimed := verifChoice(2) == 1
 	if claimed {
